@@ -17,6 +17,7 @@ import (
 	"go/token"
 	"go/types"
 	"os"
+	"strconv"
 	"strings"
 	"sync"
 
@@ -75,7 +76,9 @@ type Spec struct {
 type Case struct {
 	ID    int    `json:"id"`
 	Specs []Spec `json:"specs"`
-	Order string `json:"order"` // fwd: late, getters, setters, mix, sib, Total; rev: the reverse
+	// Tags[i]: the struct tag written after the type of Specs[i] ("" = none), as source text: a raw or an interpreted string literal
+	Tags  []string `json:"tags,omitempty"`
+	Order string   `json:"order"` // fwd: late, getters, setters, mix, sib, Total; rev: the reverse
 	// Pre: declarations written in the class file BEFORE the var block: "", "const", "type", "const+type"
 	Pre string `json:"pre,omitempty"`
 }
@@ -92,22 +95,30 @@ func (k Case) preamble() string {
 	return sb.String()
 }
 
+func (k Case) tag(i int) string {
+	if i < len(k.Tags) {
+		return k.Tags[i]
+	}
+	return ""
+}
+
 func (k Case) class() string { return fmt.Sprintf("K%d", k.ID) }
 
 type field struct {
 	name, typ string
 	embedded  bool
+	tag       string // source text of the tag literal
 }
 
 func (k Case) fields() []field {
 	var fs []field
-	for _, s := range k.Specs {
+	for i, s := range k.Specs {
 		if len(s.Names) == 0 {
-			fs = append(fs, field{strings.TrimPrefix(s.Type, "*"), s.Type, true})
+			fs = append(fs, field{strings.TrimPrefix(s.Type, "*"), s.Type, true, k.tag(i)})
 			continue
 		}
 		for _, n := range s.Names {
-			fs = append(fs, field{n, s.Type, false})
+			fs = append(fs, field{n, s.Type, false, k.tag(i)}) // a tag belongs to every name of its spec
 		}
 	}
 	return fs
@@ -124,8 +135,11 @@ func (k Case) plain() []field {
 }
 
 func (k Case) layoutClass() string {
-	grouped, emb := false, false
-	for _, s := range k.Specs {
+	grouped, emb, tagged := false, false, false
+	for i, s := range k.Specs {
+		if k.tag(i) != "" {
+			tagged = true
+		}
 		if len(s.Names) > 1 {
 			grouped = true
 		}
@@ -133,13 +147,24 @@ func (k Case) layoutClass() string {
 			emb = true
 		}
 	}
+	t := ""
+	if tagged {
+		t = "+tags"
+	}
 	switch {
 	case grouped:
-		return "grouped-names"
+		return "grouped-names" + t
 	case emb:
-		return "embedded"
+		return "embedded" + t
 	}
-	return "one-name-per-spec"
+	return "one-name-per-spec" + t
+}
+
+func tagSrc(t string) string {
+	if t == "" {
+		return ""
+	}
+	return " " + t
 }
 
 func title(s string) string { return strings.ToUpper(s[:1]) + s[1:] }
@@ -221,11 +246,11 @@ func goxFile(k Case) string {
 	var sb strings.Builder
 	sb.WriteString(k.preamble())
 	sb.WriteString("var (\n")
-	for _, s := range k.Specs {
+	for i, s := range k.Specs {
 		if len(s.Names) == 0 {
-			sb.WriteString("\t" + s.Type + "\n")
+			sb.WriteString("\t" + s.Type + tagSrc(k.tag(i)) + "\n")
 		} else {
-			sb.WriteString("\t" + strings.Join(s.Names, ", ") + " " + s.Type + "\n")
+			sb.WriteString("\t" + strings.Join(s.Names, ", ") + " " + s.Type + tagSrc(k.tag(i)) + "\n")
 		}
 	}
 	sb.WriteString(")\n")
@@ -246,9 +271,9 @@ func structForm(k Case) string {
 	fmt.Fprintf(&sb, "type %s struct {\n", k.class())
 	for _, f := range k.fields() {
 		if f.embedded {
-			sb.WriteString("\t" + f.typ + "\n")
+			sb.WriteString("\t" + f.typ + tagSrc(f.tag) + "\n")
 		} else {
-			sb.WriteString("\t" + f.name + " " + f.typ + "\n")
+			sb.WriteString("\t" + f.name + " " + f.typ + tagSrc(f.tag) + "\n")
 		}
 	}
 	sb.WriteString("}\n")
@@ -397,6 +422,9 @@ func typeView(k Case, gosrc []byte) *engine.Failure {
 		if v.Embedded() {
 			s += " (embedded)"
 		}
+		if t := st.Tag(i); t != "" {
+			s += " tag=" + strconv.Quote(t)
+		}
 		got = append(got, s)
 	}
 	for _, fl := range k.fields() {
@@ -404,10 +432,14 @@ func typeView(k Case, gosrc []byte) *engine.Failure {
 		if fl.embedded {
 			s += " (embedded)"
 		}
+		if fl.tag != "" {
+			t, _ := strconv.Unquote(fl.tag)
+			s += " tag=" + strconv.Quote(t)
+		}
 		want = append(want, s)
 	}
 	if strings.Join(got, "; ") != strings.Join(want, "; ") {
-		return &engine.Failure{Key: "type-fields-differ:" + k.layoutClass(), What: "the struct generated for the class does not have exactly the fields of the var block (name, type, order)", Detail: fmt.Sprintf("declared: %s\ngenerated: %s", strings.Join(want, "; "), strings.Join(got, "; "))}
+		return &engine.Failure{Key: "type-fields-differ:" + k.layoutClass(), What: "the struct generated for the class does not have exactly the fields of the var block (name, type, order, tag)", Detail: fmt.Sprintf("declared: %s\ngenerated: %s", strings.Join(want, "; "), strings.Join(got, "; "))}
 	}
 	gotM := map[string]*types.Func{}
 	for i := 0; i < named.NumMethods(); i++ {
@@ -542,6 +574,32 @@ func judge(k Case, p prep, r *progs.UnitResult) *engine.Failure {
 func enumerate(thorough bool) []Case {
 	base := enumerateLayouts(thorough)
 	cases := base
+	// struct tags: on every spec, on the first only, on the last only; raw and interpreted literals. A tag on a
+	// spec with several names belongs to each of them. Quick: layouts with at most two specs.
+	for _, k := range base {
+		if k.Order != "fwd" || (!thorough && len(k.Specs) > 2) {
+			continue
+		}
+		for v, mask := range []string{"all", "first", "last", "all-interpreted"} {
+			if mask != "all" && mask != "all-interpreted" && len(k.Specs) < 2 {
+				continue
+			}
+			kk := k
+			kk.ID = len(cases)
+			kk.Tags = make([]string, len(k.Specs))
+			for i := range kk.Specs {
+				if mask == "first" && i != 0 || mask == "last" && i != len(kk.Specs)-1 {
+					continue
+				}
+				if mask == "all-interpreted" {
+					kk.Tags[i] = fmt.Sprintf("\"json:\\\"f%d,omitempty\\\" v:\\\"%d\\\"\"", i, v)
+				} else {
+					kk.Tags[i] = fmt.Sprintf("`json:\"f%d,omitempty\" v:\"%d\"`", i, v)
+				}
+			}
+			cases = append(cases, kk)
+		}
+	}
 	// declarations in front of the var block: the fields must still be found
 	for _, k := range base {
 		if k.Order != "fwd" || (!thorough && len(k.Specs) > 1) {
